@@ -36,7 +36,7 @@ DOCS = [
     "@a{x}@a{x1}@a{x}",
 ]
 KINDS = ["entry", "string", "preamble", "expl", "impl"]
-HOWS = ["none", "empty", "same", ["dup", "", ""], ["dup", "X"], ["dup", "1", "2", "3"], "illegal", "badcoll"]
+HOWS = ["none", "empty", "same", ["dup", "", ""], ["dup", "X"], ["dup", "1", "2", "3"], "illegal", "illegal_falsy", "badcoll"]
 
 
 def _probe(spec):
@@ -89,6 +89,8 @@ def _probe(spec):
                 return b
             if how == "illegal":
                 return [5, (x for x in [b]), object()][Splice.n % 3]
+            if how == "illegal_falsy":       # falsy non-blocks must raise TypeError too, not be dropped like None
+                return [False, 0, 0.0][Splice.n % 3]
             if how == "badcoll":
                 return [[b, 5], "abc", (None,)][Splice.n % 3]
             items = [retag(b, t) for t in how[1:]]
@@ -111,10 +113,62 @@ def _probe(spec):
     return Splice()
 
 
+def _kind(b):
+    from bibtexparser import model as M
+    for cls, k in ((M.Entry, "entry"), (M.String, "string"), (M.Preamble, "preamble"),
+                   (M.ExplicitComment, "expl"), (M.ImplicitComment, "impl")):
+        if isinstance(b, cls):
+            return k
+    return "other"
+
+
+def ref_apply(spec, lib):
+    """the splice protocol as the property states it, written independently of BlockMiddleware.transform:
+    None/empty -> nothing, block -> itself, collection of blocks -> its items in place, else TypeError"""
+    from bibtexparser.library import Library
+    from bibtexparser import model as M
+    out = []
+    for b in lib.blocks:
+        k = _kind(b)
+        if spec[0] == "tag":
+            if k == "entry":
+                nb = copy.copy(b)
+                nb.key = b.key + spec[1]
+                b = nb
+            out.append(b)
+        elif spec[0] == "vtag":
+            if k == "entry":
+                nb = copy.copy(b)
+                nb.fields = [M.Field(f.key, f.value + spec[1] if isinstance(f.value, str) else f.value, f.start_line) for f in b.fields]
+                b = nb
+            out.append(b)
+        else:
+            kind, how = spec[1], spec[2]
+            if k != kind or how == "same":
+                out.append(b)
+            elif how in ("none", "empty"):
+                pass
+            elif how in ("illegal", "illegal_falsy", "badcoll"):
+                raise TypeError("non-block result")
+            else:
+                for t in how[1:]:
+                    nb = copy.copy(b)
+                    if k in ("entry", "string"):
+                        nb.key = b.key + t
+                    elif k == "preamble":
+                        nb.value = b.value + t
+                    else:
+                        nb.comment = b.comment + t
+                    out.append(nb)
+    return Library(out)
+
+
 def _wire(spec):
     if spec[0] in ("tag", "vtag"):
         return [Sym(spec[0]), spec[1]]
     how = spec[2]
+    if how == "illegal_falsy":
+        how = "illegal"
     return [Sym("splice"), Sym(spec[1]), Sym(how) if isinstance(how, str) else [Sym("dup")] + list(how[1:])]
 
 
@@ -311,10 +365,12 @@ def oracle(case):
         else:
             from bibtexparser.splitter import Splitter
             lib = Splitter(text).split()
-            stack = _mk(ps) if ps is not None else default_parse_stack() + (_mk(am) or [])
             try:
-                for m in stack:
-                    lib = m.transform(lib)
+                if ps is None:
+                    for m in default_parse_stack():
+                        lib = m.transform(lib)
+                for spec in (ps if ps is not None else (am or [])):
+                    lib = ref_apply(spec, lib)
                 want = ("ok", enc(B.enc_blocks(lib.blocks)))
             except TypeError:
                 want = ("raise", "TypeError")
